@@ -388,9 +388,9 @@ func (w *worker[T, JobType]) goRemoveIdleWorkers() {
 			nodes := w.pool.NodeSlice()
 			// If we have more nodes than our target, close the excess ones
 			for _, node := range nodes[targetIdleWorkers:] {
-				if node.Value.GetLastUsed().Add(interval).Before(time.Now()) &&
-					!(node.Next() == nil && node.Prev() == nil) { // if both nil, it means the node is not in the list and not idle
-					w.pool.Remove(node)
+				// Remove reports whether the node was still in the idle list: only then is it ours to retire.
+				// A node the dispatcher has popped meanwhile is about to receive a job and must not be stopped.
+				if node.Value.GetLastUsed().Add(interval).Before(time.Now()) && w.pool.Remove(node) {
 					node.Value.Stop()
 					w.pool.Cache.Put(node)
 				}
@@ -455,7 +455,9 @@ func (w *worker[T, JobType]) closeChannels() {
 // stopAndRemoveAllWorkers removes all nodes from the list and closes the pool nodes
 func (w *worker[T, JobType]) stopAndRemoveAllWorkers() {
 	for _, node := range w.pool.NodeSlice() {
-		w.pool.Remove(node)
+		if !w.pool.Remove(node) {
+			continue // no longer idle: its owner will return or retire it
+		}
 		node.Value.Stop()
 		w.pool.Cache.Put(node)
 	}
